@@ -6,6 +6,7 @@ import (
 	"fmt"
 	"os"
 	"path/filepath"
+	"regexp"
 	"strconv"
 	"sync"
 	"testing"
@@ -176,6 +177,9 @@ func (e *Evidence) Report(v *Violation, c interface{}) bool {
 	e.mu.Lock()
 	defer e.mu.Unlock()
 	v.Property = e.Property
+	if debugSigs != nil {
+		debugSigs[v.Signature]++
+	}
 	if id := matchKnown(e.known, v.Signature); id != "" {
 		e.Excluded[id]++
 		path := filepath.Join(envReplays, e.Property, "known-"+id+".json")
@@ -265,8 +269,11 @@ type knownFinding struct {
 	ID        string `json:"id"`
 	Status    string `json:"status"` // "open" suppresses, "fixed" suppresses nothing
 	Signature string `json:"signature"`
-	What      string `json:"what"`
-	Commit    string `json:"commit,omitempty"`
+	// SignatureRegex, if set, identifies the finding by its call site: all
+	// crash / preemption points of one window share one root cause.
+	SignatureRegex string `json:"signature_regex,omitempty"`
+	What           string `json:"what"`
+	Commit         string `json:"commit,omitempty"`
 }
 
 func loadKnown(property string) []knownFinding {
@@ -291,8 +298,13 @@ func loadKnown(property string) []knownFinding {
 
 func matchKnown(known []knownFinding, sig string) string {
 	for _, k := range known {
-		if k.Signature == sig {
+		if k.Signature != "" && k.Signature == sig {
 			return k.ID
+		}
+		if k.SignatureRegex != "" {
+			if ok, err := regexp.MatchString(k.SignatureRegex, sig); err == nil && ok {
+				return k.ID
+			}
 		}
 	}
 	return ""
@@ -335,3 +347,7 @@ func readReplayRaw(path string) Replay {
 	}
 	return r
 }
+
+// debugSigs, when non-nil, counts every reported signature (used by the
+// development-time enumeration of a known finding's window).
+var debugSigs map[string]int
